@@ -257,6 +257,43 @@ theorem deserialize_total (buf : Bytes) (pad : Bool) :
       deserialize deBlock buf pad = .err .trunc ∨ deserialize deBlock buf pad = .err .sererr) :=
   ⟨clean_deTx.deserialize buf pad, clean_deHeader.deserialize buf pad, clean_deBlock.deserialize buf pad⟩
 
+/-! ### CompactSize on its own (`VarIntSerializer`), every Python int -/
+
+/-- `VarIntSerializer.serialize(i)`: ValueError below zero, the CompactSize bytes on `[0, 2^64)`,
+    `struct.error` from 2^64 on — no other outcome -/
+theorem varint_ser (i : Int) :
+    (i < 0 → serVarIntInt i = .error .valueerr) ∧
+    (0 ≤ i → i < 2 ^ 64 → serVarIntInt i = .ok (compactSize i.toNat)) ∧
+    ((2 : Int) ^ 64 ≤ i → serVarIntInt i = .error structError) := by
+  refine ⟨fun h => by simp [serVarIntInt, h], fun h0 h1 => ?_, fun h => ?_⟩
+  · have : ¬ i < 0 := by omega
+    simp only [serVarIntInt, this, if_false]
+    exact serVarInt_ok (by omega)
+  · have h0 : ¬ i < 0 := by omega
+    have hn : ¬ i.toNat < 2 ^ 64 := by omega
+    simp only [serVarIntInt, h0, if_false, serVarInt]
+    have h1 : ¬ i.toNat < 0xfd := by omega
+    have h2 : ¬ i.toNat ≤ 0xffff := by omega
+    have h3 : ¬ i.toNat ≤ 0xffffffff := by omega
+    have h4 : ¬ i.toNat < 256 ^ 8 := by omega
+    simp only [h1, h2, h3, if_false, packU, h4]
+    rfl
+
+/-- write then read: the value comes back and the stream is left where the encoding ends -/
+theorem varint_roundtrip (n : Nat) (h : n < 2 ^ 64) (rest : Bytes) :
+    ∃ bs, serVarInt n = .ok bs ∧ bs = compactSize n ∧ deVarInt (bs ++ rest) = .ok (n, rest) :=
+  ⟨compactSize n, serVarInt_ok h, rfl, (dec_deVarInt n h).1 rest⟩
+
+/-- reading any byte string: a value, or truncation (the guard cannot fire: at most 8 bytes are asked) -/
+theorem varint_de_total (bs : Bytes) :
+    (∃ r, deVarInt bs = .ok r) ∨ deVarInt bs = .error .trunc ∨ deVarInt bs = .error .sererr :=
+  (clean_deVarInt bs).cases
+
+/-- non-canonical encodings are accepted on the read side, as in the code (Bitcoin Core rejects them) -/
+example : deVarInt [0xfd, 0x00, 0x00, 0x07] = .ok (0, [0x07]) ∧ deVarInt [0xff, 1, 0, 0, 0, 0, 0, 0, 0] = .ok (1, []) ∧
+    deVarInt [0xfe, 0xfc, 0, 0, 0] = .ok (0xfc, []) := by
+  refine ⟨by rfl, by rfl, by rfl⟩
+
 /-- the three codecs are sound in the sense of the codec library (DESIGN §5); for transactions the
     decoder returns the normal form, so the statement is for values in normal form -/
 theorem tx_codec_sound : Sound txBytes deTx (fun t => WFTx t ∧ normTx t = t) := by
